@@ -248,30 +248,49 @@ def tilesB (len : Nat) : Nat → Ranges → Bool
 
 def alignedB (text : Bytes) (rs : Ranges) : Bool := rs.all fun (s, e) => isBoundary text s && isBoundary text e
 
+/-- What one split stage must return on `t` according to the gaps/matches specifications. -/
+def specSplitOne (ext : SplitExt) (step : Split) (t : Bytes) : Option Ranges :=
+  if t.isEmpty then some [] else
+  match step with
+  | .unicodeScript => step.split ext t      -- no independent specification: the model (proved ordered/aligned)
+  | .pattern p b =>
+    (splitPattern ext t p).map fun ms =>
+      match b with
+      | .matches => ms
+      | .remove => Spec.gapsSpec t.length 0 ms
+      | .isolate => Spec.isolateSpec t.length 0 ms
+      | .merge => Spec.isolateSpec t.length 0 (Spec.fuseAdjacent ms)
+      | .mergeLeft => Spec.mergeLeftSpec t.length 0 ms
+      | .mergeRight => Spec.mergeRightSpec t.length ms
+
+/-- A chain is the composition of its stages: every range of the previous stage is split by itself. -/
+def specChain (ext : SplitExt) (t : Bytes) : List Split → Ranges → Option Ranges
+  | [], rs => some rs
+  | st :: rest, rs => do
+    let next ← rs.foldlM (fun acc (s, e) => do
+      let sub ← specSplitOne ext st (slice t s e)
+      pure (acc ++ sub.map fun (a, b) => (a + s, b + s))) []
+    specChain ext t rest next
+
 /-- C10 verdict on the ranges the implementation returned for one split (or a chain). -/
 def splitVerdict (ext : SplitExt) (steps : List Split) (t : Bytes) (out : Ranges) : String :=
   if !orderedB t.length 0 out then "FAILS not-ordered"
   else if !alignedB t out then "FAILS not-char-aligned"
+  else if t.isEmpty then (if out.isEmpty then "HOLDS" else "FAILS empty-text")
   else match steps with
-    | [.pattern p b] =>
-      if t.isEmpty then (if out.isEmpty then "HOLDS" else "FAILS empty-text") else
-      match splitPattern ext t p with
+    | [.pattern _ b] =>
+      let tiling := match b with
+        | .matches | .remove => true
+        | _ => tilesB t.length 0 out
+      if !tiling then "FAILS not-a-tiling"
+      else match specSplitOne ext steps.head! t with
+        | none => "HOLDS-NA"
+        | some expect => if expect != out then "FAILS grouping" else "HOLDS"
+    | [] => if out == [(0, t.length)] then "HOLDS" else "FAILS no-split-changed"
+    | _ =>
+      match specChain ext t steps [(0, t.length)] with
       | none => "HOLDS-NA"
-      | some ms =>
-        let expect : Ranges := match b with
-          | .matches => ms
-          | .remove => Spec.gapsSpec t.length 0 ms
-          | .isolate => Spec.isolateSpec t.length 0 ms
-          | .merge => Spec.isolateSpec t.length 0 (Spec.fuseAdjacent ms)
-          | .mergeLeft => Spec.mergeLeftSpec t.length 0 ms
-          | .mergeRight => Spec.mergeRightSpec t.length ms
-        let tiling := match b with
-          | .matches | .remove => true
-          | _ => tilesB t.length 0 out
-        if !tiling then "FAILS not-a-tiling"
-        else if expect != out then "FAILS grouping"
-        else "HOLDS"
-    | _ => "HOLDS"
+      | some expect => if expect != out then "FAILS chain-is-not-composition" else "HOLDS"
 
 def handleSplit (args : List String) (impl : List String) : String :=
   let (args, tab) := splitOracle args
@@ -601,9 +620,43 @@ def handleToDef (args : List String) (impl : List String) : String :=
             | .ok d' => s!"OK {toHex (DefCodec.toVec d')}"
             | .err _ => "ERR export"
             | .panic _ => "PANIC"
+      -- C14: exporting the definition of a tokenizer built from a canonically ordered definition
+      -- returns that definition. "Canonically ordered" is judged by the specification's own order
+      -- (the export model leaves the definition unchanged).
+      let canonicalInput : Bool :=
+        match DefCodec.fromSlice (regexOracle tab) bs with
+        | some d =>
+          (match Tokenizer.new d, exportDefinition d idPerm idPerm idPerm with
+            | .ok _, .ok d' => DefCodec.toVec d' == bs
+            | _, _ => false)
+        | none => false
       let verdict := match impl with
         | "PANIC" :: _ => "FAILS panic"
-        | _ => "HOLDS-NA"
+        | ["OK", out] => if canonicalInput then (if parseHex out == some bs then "HOLDS" else "FAILS export-changes-canonical-definition") else "HOLDS-NA"
+        | _ => if canonicalInput then "FAILS canonical-definition-rejected" else "HOLDS-NA"
+      s!"{model} || {verdict}"
+    | none => "BAD-OP"
+  | _ => "BAD-OP"
+
+end Kitoken.Driver
+
+namespace Kitoken.Driver
+open Kitoken Std
+
+/-- `INITB <bytes>`: native load = `from_slice` (native branch) then `Kitoken::new`. -/
+def handleInitB (args : List String) (impl : List String) : String :=
+  let (args, tab) := splitOracle args
+  match args with
+  | [hex] =>
+    match parseHex hex with
+    | some bs =>
+      let model := match DefCodec.fromSlice (regexOracle tab) bs with
+        | none => "ERR deser"
+        | some d => showInit (Tokenizer.new d)
+      let verdict := match impl with
+        | "PANIC" :: _ => "FAILS panic"
+        | "CRASH" :: _ => "FAILS crash"
+        | _ => "HOLDS"
       s!"{model} || {verdict}"
     | none => "BAD-OP"
   | _ => "BAD-OP"
